@@ -50,7 +50,7 @@ def run(ctx):
         d = ctx.sub("run-" + pkg)
         inp = os.path.join(d, "in.json")
         out = os.path.join(d, "trace.ndjson")
-        json.dump({"sessions": sessions, "random": nrand, "maxlen": maxlen}, open(inp, "w"))
+        json.dump({"sessions": sessions, "random": nrand, "maxlen": maxlen, "long": [70, 130] if q else [70, 130, 260, 520, 1030]}, open(inp, "w"))
         rc, txt = ctx.go_test(pkg, test, env={"VERIF_IN": inp, "VERIF_OUT": out})
         if rc != 0:
             raise vlib.Inconclusive("harness %s failed:\n%s" % (test, txt[-2000:]))
@@ -76,7 +76,8 @@ def run(ctx):
         res.case([s["kind"], s["ops"]])
     res.rule = ("a case is one operation sequence executed on the real container, every step judged by "
                 "T_Containers; distinct = distinct (container, operation sequence); all sequences of the "
-                "generation depth are enumerated by TLC, longer ones are seeded random")
+                "generation depth are enumerated by TLC, longer ones are seeded random; histories of 70 to 1030 pages are "
+                "opened, walked to both ends and branched from the middle")
     for sid in list(sessions)[:2] + list(sessions)[-2:]:
         res.sample({"sid": sid, **sessions[sid]})
     res.extra["generated_by_tlc"] = {"history": len(hs), "feed": len(fs)}
